@@ -128,7 +128,7 @@ func (m *C13) dataRequestCost(msg *oracletypes.MsgRequestData) (sdk.Coins, map[s
 		}
 	case scriptSimple:
 		ids = []int64{1, 2, 3}
-	case scriptNoRet, scriptTrap, scriptEmpty:
+	case scriptNoRet, scriptTrap, scriptEmpty, scriptProbe:
 		ids = []int64{1}
 	}
 	cost := sdk.NewCoins()
@@ -161,6 +161,13 @@ func (m *C13) OnBlock(e *Env, blk *world.BlockRecord) {
 		case *bankMeta:
 			if tx.OK() {
 				m.L.Move(meta.Msg.FromAddress, meta.Msg.ToAddress, meta.Msg.Amount)
+			}
+		case *dsEditMeta:
+			if tx.OK() {
+				// transactions are processed in block order: requests after this one pay the new fee to the new treasury
+				m.DSFees[int64(meta.Msg.DataSourceID)] = meta.Msg.Fee
+				m.DSTreas[int64(meta.Msg.DataSourceID)] = meta.Msg.Treasury
+				e.St.Trace(fmt.Sprintf("edit-ds(%d,fee=%s)", meta.Msg.DataSourceID, meta.Msg.Fee))
 			}
 		case *reqMeta:
 			if infraReject(tx) {
@@ -380,4 +387,33 @@ func mulCoins(c sdk.Coins, n uint64) sdk.Coins {
 		return sdk.NewCoins()
 	}
 	return c.MulInt(math.NewIntFromUint64(n))
+}
+
+// dsEditMeta marks a MsgEditDataSource sent by the data sources' owner.
+type dsEditMeta struct{ Msg *oracletypes.MsgEditDataSource }
+
+// DSEditor is the owner of the genesis data sources changing their fee (to another amount, to nothing and back) and their
+// treasury while requests are being made: what a request costs is the fee in force when it executes, not the one at genesis.
+type DSEditor struct {
+	Owner      *world.Account
+	Fees       []sdk.Coins
+	Treasuries []*world.Account
+	N          int
+	Rate       int
+}
+
+func (a *DSEditor) OnBlock(e *Env, blk *world.BlockRecord) {}
+func (a *DSEditor) Act(e *Env) {
+	if e.Draining || !e.Ch.Bool("dsedit", a.Rate) {
+		return
+	}
+	id := 1 + e.Ch.Intn("dsedit.id", a.N)
+	fee := a.Fees[e.Ch.Intn("dsedit.fee", len(a.Fees))]
+	tr := a.Treasuries[e.Ch.Intn("dsedit.treasury", len(a.Treasuries))]
+	msg := oracletypes.NewMsgEditDataSource(oracletypes.DataSourceID(id), oracletypes.DoNotModify, oracletypes.DoNotModify, oracletypes.DoNotModifyBytes, fee, tr.Addr, a.Owner.Addr, a.Owner.Addr)
+	e.St.Fault("data_source_fee_or_treasury_edited")
+	if fee.Empty() {
+		e.St.Fault("data_source_fee_edited_to_nothing")
+	}
+	e.W.Submit(&world.Intent{Signer: a.Owner, Msgs: []sdk.Msg{msg}, Tag: "edit_ds", Meta: &dsEditMeta{Msg: msg}})
 }
